@@ -352,3 +352,36 @@ func (m *Map) VerifSnapshot() (keys []any, vals []any) {
 	}
 	return
 }
+
+// Pool is sync.Pool as a deterministic LIFO with a Put -> Get happens-before edge.
+type Pool struct {
+	New   func() any
+	items []any
+}
+
+func (p *Pool) Get() any {
+	if vrt.Active() {
+		vrt.Acquire(uintptr(unsafe.Pointer(p)))
+	}
+	if n := len(p.items); n > 0 {
+		x := p.items[n-1]
+		p.items = p.items[:n-1]
+		return x
+	}
+	if p.New != nil {
+		return p.New()
+	}
+	return nil
+}
+
+func (p *Pool) Put(x any) {
+	if x == nil {
+		return
+	}
+	if vrt.Active() {
+		vrt.ReleaseMerge(uintptr(unsafe.Pointer(p)))
+	}
+	if len(p.items) < 64 {
+		p.items = append(p.items, x)
+	}
+}
